@@ -380,7 +380,7 @@ def shard(shard, nshards, rng, tier, extra):
             cases.append({'s': s, 'nw': nw, 'nf': nf, 'r': r, 'o': 'wrap', 'carrier': 'arr:float64', 'route': S.ROUTES[(idx + mi) % 4], 'vals': sweep, 'setmode': 'slice'})
             if (idx + mi) % 5 == 0: cases[-1]['ack'] = True      # (the object carries a callback that resets the flags inside the event: the stored codes are the same)
     check_store_cases(cases, res, 'A:exhaustive-quarter-LSB-wrap', 'C03')
-    n = (4000 if tier == 'quick' else 120000) // nshards
+    n = (12000 if tier == 'quick' else 120000) // nshards
     cases = []
     for _ in range(n):
         s, nw, nf = S.random_format(rng)
@@ -388,12 +388,12 @@ def shard(shard, nshards, rng, tier, extra):
         cases.append({'s': s, 'nw': nw, 'nf': nf, 'r': rng.choice(RMODES), 'o': 'wrap', 'carrier': rng.choice(S.carriers_for(vals, rng)), 'route': rng.choice(S.ROUTES), 'vals': vals, 'setmode': 'slice'})
         if rng.random() < 0.15: cases[-1]['ack'] = True
     check_store_cases(cases, res, 'B:random-core-wrap', 'C03')
-    run_period(period_cases(rng, (1500 if tier == 'quick' else 40000) // nshards), res)
-    run_wide(wide_cases(rng, (2500 if tier == 'quick' else 60000) // nshards), res)
-    run_wide2d(wide2d_cases(rng, (300 if tier == 'quick' else 8000) // nshards), res)
-    run_register(register_cases(rng, (1200 if tier == 'quick' else 30000) // nshards), res)
-    run_widesrc(widesrc_cases(rng, (600 if tier == 'quick' else 15000) // nshards), res)
-    run_outreg(outreg_cases(rng, (800 if tier == 'quick' else 20000) // nshards), res)
+    run_period(period_cases(rng, (4500 if tier == 'quick' else 40000) // nshards), res)
+    run_wide(wide_cases(rng, (7500 if tier == 'quick' else 60000) // nshards), res)
+    run_wide2d(wide2d_cases(rng, (900 if tier == 'quick' else 8000) // nshards), res)
+    run_register(register_cases(rng, (3600 if tier == 'quick' else 30000) // nshards), res)
+    run_widesrc(widesrc_cases(rng, (1800 if tier == 'quick' else 15000) // nshards), res)
+    run_outreg(outreg_cases(rng, (2400 if tier == 'quick' else 20000) // nshards), res)
     res.exhaustive = True
     return res
 
